@@ -4,6 +4,7 @@ CONSTANTS
   MaxEdits = 2
   Limit = 1
   ReadOnly = FALSE
+  InitDisks = {"A"}
   Watch = "poll"
 SPECIFICATION Spec
 VIEW View
